@@ -129,5 +129,50 @@ Section Cons.
     let '(w, H) := crba O M w q (zerosM n n) false in
     let G := cons_G M w cs in
     (w, kkt_solve H G (mvmul O H qdm) vplus n m).
+  (* ---------- constrained inverse dynamics with an actuation map (src/Constraints.cc:1846-2077) ----------
+     The library eliminates block-wise (u = S qdd*, v from (G P^T) v = gamma - G S^T u, lambda from P-rows) or,
+     for the relaxed operator, by a null-space method.  The model states the same operators as ONE square
+     linear system in (qdd, lambda): row i of the dynamics block is either the prescription of an actuated
+     acceleration or the force balance of an unactuated coordinate. *)
+  Definition mask_row (act : list bool) (r : list T) : list T :=
+    map (fun p : bool * T => if fst p then snd p else t0) (combine act r).
+  Definition idc_rows (H G : Mat (T:=T)) (n nc : nat) (act : list bool) (relaxed : bool) : Mat (T:=T) :=
+    let GT := mTn O G n in
+    let w100 := onat O 100 in
+    map (fun i =>
+      let Hi := nth i H [] in
+      if nth i act false then
+        (if relaxed then vadd O Hi (vscale O w100 (mask_row act Hi)) ++ vneg O (nth i GT [])
+         else unitv O n i ++ vzeros t0 nc)
+      else Hi ++ vneg O (nth i GT [])) (iota 0 n)
+    ++ map (fun r => r ++ vzeros t0 nc) G.
+  Definition idc_rhs (H : Mat (T:=T)) (C gam qdes : list T) (n : nat) (act : list bool) (relaxed : bool) : list T :=
+    let w100 := onat O 100 in
+    map (fun i =>
+      if nth i act false then
+        (if relaxed then omul O w100 (odot O (mask_row act (nth i H [])) qdes) else vget t0 qdes i)
+      else oopp O (vget t0 C i)) (iota 0 n) ++ gam.
+  Definition idc_tau (H G : Mat (T:=T)) (C qdes qdd lam : list T) (n : nat) (act : list bool) (relaxed : bool) : list T :=
+    let GT := mTn O G n in
+    let w100 := onat O 100 in
+    map (fun i =>
+      if nth i act false then
+        (if relaxed
+         then oadd O (omul O w100 (odot O (mask_row act (nth i H [])) (vsub O qdes qdd))) (vget t0 C i)
+         else osub O (oadd O (odot O (nth i H []) qdd) (vget t0 C i)) (odot O (nth i GT []) lam))
+      else t0) (iota 0 n).
+  Definition inverse_dynamics_constraints (M : Model) (w : WS) (q qd qdes : list T) (cs : CSet) (act : list bool)
+             (relaxed : bool) (fext : option (list SV)) : WS * CSys * option (list T * list T * list T) :=
+    let '(w, Sy) := calc_constrained_system_variables M w q qd cs true fext in
+    let n := dof_count M in let nc := length cs in
+    (w, Sy,
+     match solve_pp O (idc_rows (cH Sy) (cG Sy) n nc act relaxed) (idc_rhs (cH Sy) (cC Sy) (cgamma Sy) qdes n act relaxed) with
+     | Some z => let qdd := vslice t0 z 0 n in let lam := vslice t0 z n nc in
+                 Some (qdd, idc_tau (cH Sy) (cG Sy) (cC Sy) qdes qdd lam n act relaxed, lam)
+     | None => None
+     end).
+  (* G P^T: the columns of G that belong to the unactuated coordinates *)
+  Definition gpt (G : Mat (T:=T)) (act : list bool) : Mat (T:=T) :=
+    map (fun r => map snd (filter (fun p : bool * T => negb (fst p)) (combine act r))) G.
 End Cons.
 Arguments CRow : clear implicits. Arguments RContact {T}. Arguments RLoop {T}.
